@@ -125,6 +125,9 @@ SPEC = [
          params=[("T", "Z"), ("subblock_T", "Z")], ret="Z"),
     dict(group="09", name="quantize_real", file="setigen/voltage/quantization.py", cls=None, func="quantize_real", what="return",     # elementwise; locals (factor, bounds) inlined
          params=[("x", "Q"), ("target_mean", "Q"), ("target_std", "Q"), ("data_mean", "Q"), ("data_std", "Q"), ("num_bits", "Z")], ret="Z"),
+    dict(group="10", name="chirp_arg", file="setigen/voltage/data_stream.py", cls="DataStream", func="add_constant_signal/signal_func", what="call:xp.cos",
+         params=[("f_start", "Q"), ("fch1", "Q"), ("drift_rate", "Q"), ("ts", "Q"), ("phase", "Q"), ("pi", "Q"), ("ascending", "B")], ret="Q",
+         opaque={"xp.pi": "pi"}),       # argument of the cosine, elementwise in ts; the local chirp_phase (with its guarded negation) is inlined
     dict(group="11", name="chi2_df", file="setigen/frame.py", cls="Frame", func="__init__", what="assign:self.chi2_df",
          params=[("df", "Q"), ("dt", "Q")], ret="Z"),
     dict(group="11", name="stream_noise_var", file="setigen/voltage/data_stream.py", cls="DataStream", func="add_noise", what="assign:self.noise_std",
@@ -147,10 +150,14 @@ def find_func(tree, cls, func):
         if not c:
             raise Untranslatable("class %s not found" % cls)
         scope = c[0].body
-    f = [n for n in scope if isinstance(n, ast.FunctionDef) and n.name == func]
-    if not f:
-        raise Untranslatable("function %s not found" % func)
-    return f[-1]          # the last definition (a property setter would come after the getter)
+    fn = None
+    for part in func.split("/"):          # "outer/inner" = a function defined inside another one
+        f = [n for n in scope if isinstance(n, ast.FunctionDef) and n.name == part]
+        if not f:
+            raise Untranslatable("function %s not found" % func)
+        fn = f[-1]        # the last definition (a property setter would come after the getter)
+        scope = fn.body
+    return fn
 
 
 def pick(fn, what):
@@ -249,6 +256,31 @@ def pick(fn, what):
     raise Untranslatable("unknown selector %s" % what)
 
 
+def flow_expr(fn, var, stop=None, init=None):
+    """value of `var` after the leading top-level statements of fn: `v = e`, `v op= e` and guarded `if test: v = e` (no else) are
+    folded in order; None if `var` is assigned in any other way"""
+    expr = init
+    handled = []
+    for st in fn.body:
+        if stop and stop in src(st):
+            break
+        if isinstance(st, ast.Assign) and len(st.targets) == 1 and src(st.targets[0]) == var:
+            expr = st.value if expr is None else _subst(st.value, var, expr)
+            handled.append(st)
+        elif isinstance(st, ast.AugAssign) and src(st.target) == var and expr is not None:
+            expr = ast.BinOp(left=expr, op=st.op, right=st.value)
+            handled.append(st)
+        elif (isinstance(st, ast.If) and not st.orelse and len(st.body) == 1 and isinstance(st.body[0], ast.Assign)
+              and [src(t) for t in st.body[0].targets] == [var] and expr is not None):
+            expr = ast.IfExp(test=_subst(st.test, var, expr), body=_subst(st.body[0].value, var, expr), orelse=expr)
+            handled.append(st.body[0])
+    if stop is None:
+        every = [m for m in ast.walk(fn) if (isinstance(m, ast.Assign) and any(src(t) == var for t in m.targets)) or (isinstance(m, ast.AugAssign) and src(m.target) == var)]
+        if any(m not in handled for m in every):
+            return None
+    return expr
+
+
 class _Subst(ast.NodeTransformer):
     def __init__(self, var, by):
         self.var, self.by = var, by
@@ -298,6 +330,10 @@ class Tr(object):
             k = [src(t) for t in tup[0].targets[0].elts].index(name)
             return tup[0].value.elts[k]
         augs = [m for m in ast.walk(self.fn) if isinstance(m, ast.AugAssign) and src(m.target) == name]
+        if len(hits) + len(augs) >= 2:
+            fe = flow_expr(self.fn, name)
+            if fe is not None:
+                return fe
         if augs:
             # only a straight-line top-level chain `v = e; v += f; ...` is understood
             if not (hits and all(h in self.fn.body for h in hits + augs)):
@@ -525,7 +561,7 @@ def translate(repo):
                     txt = "(inject_Z %s)" % txt
                 else:
                     raise Untranslatable("result is %s, expected %s" % (ty, e["ret"]))
-            params = " ".join("(%s : %s)" % (p, t) for p, t in e["params"])
+            params = " ".join("(%s : %s)" % (p, {"B": "bool"}.get(t, t)) for p, t in e["params"])
             out.append("(* %s :: %s%s.%s :: %s *)" % (e["file"], (e["cls"] + ".") if e["cls"] else "", e["func"], e["what"], src(node).replace("*)", "* )")))
             out.append("Definition src_%s %s : %s := %s." % (e["name"], params, {"B": "bool"}.get(e["ret"], e["ret"]), txt))
             out.append("")
